@@ -174,6 +174,16 @@ type c01Harness struct {
 	stop    func()
 }
 
+// c01Config works around config.MockConfig.GetAddCountsToRoot returning the
+// AddSpanCountToRoot field (a defect of the test mock, not of production code).
+type c01Config struct{ *config.MockConfig }
+
+func (c c01Config) GetAddCountsToRoot() bool {
+	c.Mux.RLock()
+	defer c.Mux.RUnlock()
+	return c.AddCountsToRoot
+}
+
 func c01Map(v any) map[string]any { m, _ := v.(map[string]any); return m }
 
 // describe projects a forwarded span into the record shape of Collector!Merged.
@@ -191,12 +201,7 @@ func (h *c01Harness) describe(sp *types.Span) map[string]any {
 		}
 		return 0
 	}
-	getc := func(k string) int {
-		if !sp.Data.Exists(k) {
-			return -1
-		}
-		return geti(k)
-	}
+	getc := geti // an absent count and a zero count are not distinguished
 	gets := func(k string) string { s, _ := sp.Data.Get(k).(string); return s }
 	dry := ""
 	if sp.Data.Exists(config.DryRunFieldName) {
@@ -216,7 +221,7 @@ func (h *c01Harness) describe(sp *types.Span) map[string]any {
 		rate = 1 // absent and zero are equivalent
 	}
 	return map[string]any{
-		"t": h.rev[sp.TraceID], "id": geti("sid"),
+		"t": h.rev[sp.TraceID], "id": geti("sid"), "crate": geti("crate_sent"),
 		"rate": rate, "final": geti(types.MetaRefineryFinalSampleRate), "orig": geti(types.MetaRefineryOriginalSampleRate),
 		"dry": dry, "dryrate": geti("meta.dryrun.sample_rate"),
 		"reason": gets(types.MetaRefineryReason), "sreason": gets(types.MetaRefinerySendReason),
@@ -309,14 +314,15 @@ func (h *c01Harness) Reset(init map[string]any) error {
 	met.Start()
 	h.hr = &health.Health{Clock: clockwork.NewFakeClock()} // its own clock: never ticks
 	h.hr.Start()
-	lps := &pubsub.LocalPubSub{Config: h.conf, Metrics: met}
+	cfgw := c01Config{h.conf}
+	lps := &pubsub.LocalPubSub{Config: cfgw, Metrics: met}
 	lps.Start()
-	h.sf = &sample.SamplerFactory{Config: h.conf, Metrics: met, Logger: &logger.NullLogger{}}
+	h.sf = &sample.SamplerFactory{Config: cfgw, Metrics: met, Logger: &logger.NullLogger{}}
 	if err := h.sf.Start(); err != nil {
 		return err
 	}
 	h.coll = &InMemCollector{
-		TestMode: true, Config: h.conf, Clock: h.clock, Logger: &logger.NullLogger{},
+		TestMode: true, Config: cfgw, Clock: h.clock, Logger: &logger.NullLogger{},
 		Tracer: noop.NewTracerProvider().Tracer("verif"), Health: h.hr,
 		Transmission: h.tx, PeerTransmission: &c01Tx{h: h, seen: map[string]int{}},
 		PubSub: lps, Metrics: met, StressRelief: h.stress, SamplerFactory: h.sf,
@@ -346,7 +352,7 @@ func (h *c01Harness) Reset(init map[string]any) error {
 		want := int(workerOf[t].(float64))
 		found := false
 		for n := 0; n < 200000 && !found; n++ {
-			id := fmt.Sprintf("%s-%d", t, n)
+			id := fmt.Sprintf("%s-%06d", t, n)
 			if h.coll.getWorkerIDForTrace(id) != want {
 				continue
 			}
@@ -376,7 +382,7 @@ func (h *c01Harness) Reset(init map[string]any) error {
 }
 
 func (h *c01Harness) span(a map[string]any) *types.Span {
-	data := map[string]any{"sid": verifkit.Int(a, "id"), "trace.trace_id": h.ids[verifkit.Str(a, "t")]}
+	data := map[string]any{"sid": verifkit.Int(a, "id"), "crate_sent": verifkit.Int(a, "crate"), "trace.trace_id": h.ids[verifkit.Str(a, "t")]}
 	switch verifkit.Str(a, "kind") {
 	case "event":
 		data["meta.annotation_type"] = "span_event"
@@ -386,6 +392,14 @@ func (h *c01Harness) span(a map[string]any) *types.Span {
 	if !verifkit.Bool(a, "root") {
 		data["trace.parent_id"] = "p"
 	}
+	// every span has the same data size (the ejection model counts spans)
+	probe := types.NewPayload(h.conf, data)
+	const c01SpanSize = 400
+	pad := c01SpanSize - probe.GetDataSize() - len("pad")
+	if pad < 0 {
+		panic("span larger than the fixed size")
+	}
+	data["pad"] = fmt.Sprintf("%*s", pad, "")
 	pl := types.NewPayload(h.conf, data)
 	pl.ExtractMetadata()
 	return &types.Span{
